@@ -1,1 +1,392 @@
-fn main(){}
+//! mc-state: explicit-state exploration of operation histories on the real contract-state
+//! trie (`MutableState` / `MutableTrie` / `PersistentState` / `InstanceState`) against an
+//! ordered-map reference model and an independent implementation of the state hash.
+//! Serves C03 (ordered-map semantics, generations), C04 (canonical hash, persistence) and
+//! C15 (iterator locks, entry handles).
+
+#[global_allocator]
+static ALLOC: mc_core::PoolAlloc = mc_core::PoolAlloc;
+
+mod golden;
+mod instance;
+mod model;
+mod prefixes;
+mod trie_harness;
+
+use mc_core::{Cli, Report, Tier};
+use rayon::prelude::*;
+use serde_json::{json, Value as J};
+use std::{
+    collections::HashSet,
+    time::{Duration, Instant},
+};
+use trie_harness::*;
+
+fn alphabet(prop: &str, tier: Tier) -> Vec<Op> {
+    let nk = keys().len();
+    let mut a = vec![];
+    let q = tier == Tier::Quick;
+    match prop {
+        "C03" => {
+            for k in 0..nk {
+                for v in [1, 2] {
+                    a.push(Op::Insert(k, v));
+                }
+            }
+            a.push(Op::Insert(2, 0));
+            for k in 0..nk {
+                a.push(Op::Delete(k));
+            }
+            for k in [0, 1, 2, 4] {
+                a.push(Op::DeletePrefix(k));
+            }
+            a.extend([Op::Checkpoint, Op::Rollback, Op::Commit, Op::Refreeze(Persist::Plain)]);
+            for k in [1, 2, 5] {
+                a.push(Op::GetMutToggle(k));
+            }
+            for k in [1, 2] {
+                a.push(Op::SetEntry(k, 2));
+                a.push(Op::SetEntry(k, 0));
+            }
+            for k in [0, 1, 2] {
+                a.push(Op::Iter(k));
+            }
+            a.extend([Op::Next(0), Op::DelIter(0), Op::Next(1), Op::DelIter(1)]);
+            if !q {
+                a.push(Op::Refreeze(Persist::StoreReload));
+            }
+        }
+        "C04" => {
+            // content operations + every persistence deviation at every freeze point
+            for k in 0..nk {
+                for v in [1, 2] {
+                    a.push(Op::Insert(k, v));
+                }
+            }
+            for k in 0..nk {
+                a.push(Op::Delete(k));
+            }
+            for k in [1, 2] {
+                a.push(Op::DeletePrefix(k));
+            }
+            a.extend([
+                Op::Refreeze(Persist::Plain),
+                Op::Refreeze(Persist::StoreReload),
+                Op::Refreeze(Persist::StoreReloadCache),
+                Op::Refreeze(Persist::SerDe),
+                Op::Refreeze(Persist::Migrate),
+            ]);
+            a.push(Op::GetMutToggle(2));
+            a.push(Op::SetEntry(1, 2));
+            a.extend([Op::Checkpoint, Op::Rollback, Op::Commit]);
+        }
+        "C15" => {
+            // lock-relevant alphabet: up to 3 iterators on equal / nested / disjoint prefixes
+            for k in [0, 1, 2, 4, 6] {
+                a.push(Op::Iter(k));
+            }
+            for i in 0..3 {
+                a.push(Op::Next(i));
+                a.push(Op::DelIter(i));
+            }
+            for k in [1, 2, 3, 5, 6] {
+                a.push(Op::Insert(k, 1));
+            }
+            for k in [1, 2, 5, 6] {
+                a.push(Op::Delete(k));
+            }
+            for k in [0, 1, 2, 6] {
+                a.push(Op::DeletePrefix(k));
+            }
+            a.push(Op::GetMutToggle(2));
+            a.push(Op::SetEntry(2, 0));
+            a.extend([Op::Checkpoint, Op::Rollback, Op::Commit]);
+        }
+        _ => unreachable!(),
+    }
+    a
+}
+
+/// Rebuild the harness by replaying a history. Replay is deterministic, so a violation
+/// while replaying an already accepted prefix is a machinery error.
+fn build(init: Init, hist: &[Op], max_iters: usize) -> Harness {
+    let mut h = Harness::new(init);
+    h.max_iters = max_iters;
+    for op in hist {
+        if let Err((k, d)) = h.apply(*op) {
+            mc_core::machinery_error(&format!("divergence while replaying an accepted prefix: {k} {d}"));
+        }
+    }
+    h
+}
+
+fn hist_json(init: Init, hist: &[Op]) -> J { json!({"init": format!("{init:?}"), "history": hist.iter().map(op_json).collect::<Vec<_>>()}) }
+
+struct Expansion {
+    succ:        Vec<(Op, Vec<u8>)>,
+    transitions: u64,
+    violations:  Vec<(String, J, J)>,
+    nontrivial:  u64,
+}
+
+fn expand(init: Init, hist: &[Op], alpha: &[Op], max_iters: usize, fine: bool) -> Expansion {
+    let base = build(init, hist, max_iters);
+    let ops = base.enabled(alpha);
+    drop(base);
+    let mut out = Expansion { succ: vec![], transitions: 0, violations: vec![], nontrivial: 0 };
+    for op in ops {
+        let mut h = build(init, hist, max_iters);
+        out.transitions += 1;
+        let r = mc_core::catch(|| {
+            let r = h.apply(op).and_then(|_| h.observe());
+            (r, h)
+        });
+        let mut full = hist.to_vec();
+        full.push(op);
+        match r {
+            Err(p) => out.violations.push(("panic".into(), hist_json(init, &full), json!({"panic": p}))),
+            Ok((Err((kind, detail)), _)) => out.violations.push((kind, hist_json(init, &full), detail)),
+            Ok((Ok(()), mut h)) => {
+                if h.top_map().len() >= 2 {
+                    out.nontrivial += 1;
+                }
+                out.succ.push((op, h.canon(fine)));
+            }
+        }
+    }
+    out
+}
+
+fn run_trie_property(cli: &Cli) -> ! {
+    let report = Report::new(cli);
+    let prop = cli.property.as_str();
+    let max_iters = if prop == "C15" { 3 } else { 2 };
+    if let Some(path) = &cli.replay {
+        let doc = mc_core::load_replay(path);
+        let w = &doc["witness"];
+        if w.get("history").is_none() {
+            if prop == "C15" {
+                instance::replay(&report, w);
+            }
+            mc_core::machinery_error("replay file has no history");
+        }
+        let init = match w["init"].as_str() {
+            Some("Memory") => Init::Memory,
+            Some("Stored") => Init::Stored,
+            _ => Init::Empty,
+        };
+        let hist: Vec<Op> = w["history"].as_array().map(|a| a.iter().filter_map(op_from_json).collect()).unwrap_or_default();
+        let mut h = Harness::new(init);
+        h.max_iters = max_iters;
+        for (i, op) in hist.iter().enumerate() {
+            let r = mc_core::catch(|| h.apply(*op).and_then(|_| h.observe()));
+            println!("step {i}: {} -> {:?}", op_json(op), r.as_ref().map(|x| x.as_ref().map_err(|e| &e.0)));
+            match r {
+                Ok(Ok(())) => {}
+                Ok(Err((k, d))) => {
+                    report.violation(&k, w.clone(), d);
+                    break;
+                }
+                Err(p) => {
+                    report.violation("panic", w.clone(), json!({"panic": p}));
+                    break;
+                }
+            }
+        }
+        report.finish(false, json!("replay"));
+    }
+    let alpha = alphabet(prop, cli.tier);
+    let cap = Duration::from_secs(if cli.tier == Tier::Quick { 40 } else { 20 * 60 });
+    let max_depth = if cli.tier == Tier::Quick { 5 } else { 9 };
+    let start = Instant::now();
+    let mut exhaustive = true;
+    let mut bounds = vec![];
+    // pass 1: exact structural dedup key, lower depth; pass 2: model+shape key, deeper
+    let fine_depth = if cli.tier == Tier::Quick { 3 } else { 5 };
+    for (fine, depth_limit, share) in [(true, fine_depth, 0.35f64), (false, max_depth, 1.0f64)] {
+        for (ii, init) in [Init::Empty, Init::Memory, Init::Stored].into_iter().enumerate() {
+            // self-test: the same history twice gives the same canonical state
+            {
+                let mut a = build(init, &alpha[..1], max_iters);
+                let mut b = build(init, &alpha[..1], max_iters);
+                if a.canon(true) != b.canon(true) || a.canon(false) != b.canon(false) {
+                    mc_core::machinery_error("determinism self-test failed: equal histories give different canonical states");
+                }
+            }
+            // each initial state gets an equal share of what is left of this pass's budget
+            let pass_deadline = cap.mul_f64(share);
+            let left = pass_deadline.saturating_sub(start.elapsed());
+            let deadline = Instant::now() + left / (3 - ii as u32);
+            let mut seen: HashSet<Vec<u8>> = HashSet::new();
+            let mut frontier: Vec<Vec<Op>> = vec![vec![]];
+            seen.insert(build(init, &[], max_iters).canon(fine));
+            let mut states = 1u64;
+            let mut transitions = 0u64;
+            let mut completed_depth = 0usize;
+            'levels: for depth in 1..=depth_limit {
+                let mut next = vec![];
+                for chunk in frontier.chunks(20_000) {
+                    if Instant::now() > deadline {
+                        exhaustive = false;
+                        report.cap_hit(&format!("wall-clock share used up at depth {depth} from {init:?} ({} key)", if fine { "fine" } else { "coarse" }));
+                        break 'levels;
+                    }
+                    let t0 = Instant::now();
+                    let results: Vec<(Vec<Op>, Expansion)> = chunk.par_iter().with_max_len(8).map(|h| (h.clone(), expand(init, h, &alpha, max_iters, fine))).collect();
+                    let t1 = Instant::now();
+                    if std::env::var("MC_TIMING").is_ok() {
+                        eprintln!("  chunk of {} expanded in {:.2}s", chunk.len(), (t1 - t0).as_secs_f64());
+                    }
+                    for (h, e) in results {
+                        transitions += e.transitions;
+                        report.nontrivial(e.nontrivial);
+                        for (k, w, d) in e.violations {
+                            report.violation(&k, w, d);
+                        }
+                        for (op, canon) in e.succ {
+                            if seen.insert(canon) {
+                                states += 1;
+                                let mut nh = h.clone();
+                                nh.push(op);
+                                next.push(nh);
+                            }
+                        }
+                    }
+                }
+                completed_depth = depth;
+                eprintln!(
+                    "[{prop} {init:?} {}] depth {depth}: states={states} frontier={} transitions={transitions} elapsed={:.1}s",
+                    if fine { "fine" } else { "coarse" },
+                    next.len(),
+                    start.elapsed().as_secs_f64()
+                );
+                frontier = next;
+                if report.violation_count() > 200 {
+                    break;
+                }
+            }
+            if let Some(h) = frontier.get(frontier.len() / 2) {
+                report.sample(hist_json(init, h));
+            }
+            report.state(states);
+            report.transition(transitions);
+            report.trace(transitions);
+            report.eval(transitions);
+            bounds.push(json!({"init": format!("{init:?}"), "dedup_key": if fine { "exact structure" } else { "model + table sizes" },
+                               "depth_completed": completed_depth, "depth_target": depth_limit, "states": states, "transitions": transitions}));
+        }
+    }
+    if prop == "C04" {
+        golden::check(&report);
+        golden::insertion_orders(&report, cli.tier);
+    }
+    // C15 has two more layers: the lock map alone, and the contract-visible InstanceState
+    if prop == "C15" {
+        prefixes::run(&report, cli.tier);
+        instance::run(&report, cli.tier, start, cap);
+    }
+    // undeduplicated cross-check (guards against a wrong abstraction in the dedup key)
+    if prop != "C15" {
+        let d = if cli.tier == Tier::Quick { 3 } else { 4 };
+        let (n, v) = dfs_no_dedup(&report, &alpha, d, max_iters);
+        report.set_extra("undeduplicated_histories", json!(n));
+        report.set_extra("undeduplicated_depth", json!(d));
+        report.eval(n);
+        report.transition(n);
+        report.trace(n);
+        let _ = v;
+    }
+    report.outcome("ok-steps", report.transitions.load(std::sync::atomic::Ordering::Relaxed));
+    report.outcome("violating-steps", report.violation_count());
+    report.set_technique("explicit-state breadth-first search over operation histories of the real trie (state = history, rebuilt by replay; dedup on the exact structural identity of the implementation state), every step compared with an ordered-map reference model and an independent hash implementation");
+    report.set_rule("all histories up to the completed depth over the listed operation alphabet from three initial states (empty, thawed in-memory, thawed from backing store); after every step: operation result, point lookups, full ordered read-out and hash of every live generation and of the originating persistent state; a step is non-trivial if the resulting state holds at least two entries");
+    report.assume("keys are drawn from a 7-element alphabet of mutually prefixing / splitting keys, values from {empty, 1 byte, 65 bytes}");
+    report.assume("the stand-in for the slab crate (checked get_unchecked) behaves like the original");
+    report.set_extra("alphabet_size", json!(alpha.len()));
+    report.set_extra("bounds", json!(bounds));
+    report.finish(exhaustive, json!(bounds));
+}
+
+/// Stateless DFS without deduplication over the content alphabet (no iterators).
+fn dfs_no_dedup(report: &Report, alpha: &[Op], depth: usize, max_iters: usize) -> (u64, u64) {
+    let alpha: Vec<Op> = alpha.iter().copied().filter(|o| !matches!(o, Op::Iter(_) | Op::Next(_) | Op::DelIter(_))).collect();
+    let firsts: Vec<Op> = alpha.clone();
+    let counts: Vec<(u64, u64)> = firsts
+        .par_iter()
+        .map(|first| {
+            let mut n = 0u64;
+            let mut v = 0u64;
+            for init in [Init::Empty, Init::Stored] {
+                let mut hist = vec![*first];
+                fn go(init: Init, hist: &mut Vec<Op>, alpha: &[Op], depth: usize, n: &mut u64, v: &mut u64, report: &Report, max_iters: usize) {
+                    // replay the whole history, checking every step (cheap at this depth)
+                    let mut h = Harness::new(init);
+                    h.max_iters = max_iters;
+                    let mut enabled_ok = true;
+                    for (i, op) in hist.iter().enumerate() {
+                        if !h.enabled(&[*op]).contains(op) {
+                            enabled_ok = false;
+                            break;
+                        }
+                        let last = i + 1 == hist.len();
+                        let r = mc_core::catch(|| {
+                            let r = h.apply(*op);
+                            if last {
+                                r.and_then(|_| h.observe())
+                            } else {
+                                r
+                            }
+                        });
+                        match r {
+                            Ok(Ok(())) => {}
+                            Ok(Err((k, d))) => {
+                                if last {
+                                    report.violation(&k, hist_json(init, hist), d);
+                                    *v += 1;
+                                }
+                                enabled_ok = false;
+                                break;
+                            }
+                            Err(p) => {
+                                if last {
+                                    report.violation("panic", hist_json(init, hist), json!({"panic": p}));
+                                    *v += 1;
+                                }
+                                enabled_ok = false;
+                                break;
+                            }
+                        }
+                    }
+                    if !enabled_ok {
+                        return;
+                    }
+                    *n += 1;
+                    if hist.len() >= depth {
+                        return;
+                    }
+                    for op in alpha {
+                        hist.push(*op);
+                        go(init, hist, alpha, depth, n, v, report, max_iters);
+                        hist.pop();
+                    }
+                }
+                go(init, &mut hist, &alpha, depth, &mut n, &mut v, report, max_iters);
+            }
+            (n, v)
+        })
+        .collect();
+    (counts.iter().map(|c| c.0).sum(), counts.iter().map(|c| c.1).sum())
+}
+
+fn main() {
+    let cli = mc_core::parse_cli();
+    mc_core::quiet_panics();
+    if cli.extra.contains_key("write-golden") {
+        golden::write();
+        return;
+    }
+    match cli.property.as_str() {
+        "C03" | "C04" | "C15" => run_trie_property(&cli),
+        other => mc_core::machinery_error(&format!("mc-state does not serve property {other}")),
+    }
+}
